@@ -97,6 +97,36 @@ CHECKS = {
             'qualified names = module names ++ __qualname__ when all enclosing scopes are classes (refutation for function-local definitions). Tied to /repo per run: the definition tree with extents is extracted with ast (independent of parso) from generated programs and corpus files, '
             'get_context at every (line, column) / every token, parent() chains of all get_names(all_scopes=True), full_name vs module.__name__ + obj.__qualname__ after importing the generated project; all compared with the model in Coq and with the ast oracle.',
             'Coq kernel + vm_compute; proofs work on the flattened preorder scope table of the tree; corpus module dotted names are taken from jedi as model input.'),
+    'C02': ('Coq proof that a set-valued abstract evaluator written the way jedi infers is sound (and exact without conditionals) w.r.t. a big-step semantics of a core language, that jedi\'s argument binding equals Python\'s, MRO agreement on single inheritance + vm_compute correspondence with Script.infer and CPython execution',
+            'Theorems (6, closed): for ALL programs of a core language (assignments, tuples, constant indexing, conditionals on opaque inputs, defs with defaults/*args/keyword-only/**kwargs, calls, classes) eval p = Some v implies tag(v) is in ainfer p (soundness), and ainfer = [tag v] when no conditional is involved (exactness); a line-by-line transcription of get_executed_param_names_and_issues returns the binding of Python\'s call binding whenever Python binds (hypothesis shown necessary by a witness); '
+            'jedi\'s depth-first MRO = C3 on every single-inheritance hierarchy, refuted on the diamond. Tied to /repo per run: generated core-language programs executed by CPython (type() of every use = ground truth) and queried with Script.infer at every use; Coq evaluates both evaluators on the same programs and must reproduce both; binding matrix vs inspect.Signature.bind and real calls; class hierarchies vs type.__mro__; a model-free differential stream (execute vs infer) over the documented feature list. '
+            'Deviations are accepted only under classifiers computed from the program (diamond MRO with the model-predicted wrong definer, starred targets, except-as binding, super().__init__ arguments).',
+            'Coq kernel + vm_compute; the engine beyond the core language (decorators, generators, closures, properties, comprehensions, imports) is covered by the model-free differential stream only (partial there); builtin return types are unknown without typeshed.'),
+    'C06': ('Coq proof of inline\'s parenthesisation rule against a derivation-relation model of the expression grammar, the substitution lemma for extract-then-inline and meaning preservation + vm_compute correspondence with inline/extract_variable and compile()/execution of old vs new programs',
+            'Theorems (14, closed): the grammar (as a derivation relation over token lists with explicit parentheses nodes) derives exactly the prints of well-formed trees; replacing a name token by ( rhs ) is always derivable in the same slot and denotes e[x := r]; jedi\'s present rule (_INLINE_NEEDS_PARENTHESES + tuple + trailer cases) writes a text that derives the inlined tree in the same slot and means e[x := r] for every tree, every test-level right-hand side and every parent type except dictorsetmaker (refutation witness {**x}: open finding); '
+            'the pre-fix rule refuted (1 if a else 2 if b else 3 evaluates differently) and shown sound above expr level; substitution lemma, inline meaning preservation, extract-then-inline identity modulo parentheses, a name fits every slot, inline_text is a token splice. Tied to /repo per run: an exhaustive slot x right-hand-side matrix (~1400 tiny programs) and seeded executable programs through inline / extract_variable / extract_function: every result must be RefactoringError or compile; '
+            'under ast-decided side conditions old and new program are executed (same trace); per rewritten line Coq checks inline_text new_rule = the tokens jedi wrote, parents = real parent types, wf of the inlined tree, is_extraction for extract_variable; extract then inline round trip.',
+            'Coq kernel + vm_compute; selection normalisation and extract_function (inputs/outputs/insertion) are oracle-only (partial there: 20 listed findings with input-computed classifiers).'),
+    'C08': ('Coq proof over all edit/query/tick/evict histories of the cache-keying state machine (parser cache, version-keyed derived caches, per-Script memo, time-limited signature cache) + vm_compute correspondence and history-vs-fresh-process differential on edit sessions',
+            'Theorems (11, closed): every derived-cache entry reachable through the cache item currently stored under a key was computed from the tree stored under it; with version keying, per-Script memo and the proviso reparse = parse, after ANY history the answer to every query equals the one-Script answer (history independence) for derived data and for signatures whose key holds a Match object; a time-cache hit returns a value computed for the same path/text component/bracket position less than the validity ago; path-less buffers are never time-cached; fresh after the validity; '
+            'refutations: the REAL key degenerates for multi-line calls (open finding, predicted by the model), and the variants keyed by path / shared memo / textual key / without the proviso are history dependent. Tied to /repo per run: edit sessions of 1..30 steps (20 edit kinds; with path, on disk, path-less, two buffers) run in ONE process with an explicit clock, every query answer after every step compared with a fresh process on the same text; the cache keys/hits observed by wrapping the stores are compared with the model in Coq; parso proviso checked per step.',
+            'Coq kernel + vm_compute; parser and engine are abstract section variables of the model; queries that crash on both sides with a stack overflow on one side (typeshed-less K1 cycle) are counted, not compared.'),
+    'C09': ('Coq proof over all file-system histories with explicit mtimes of the parso/importlib cache-validation state machine (fresh under monotone time from any valid state; stale only when one of three computed flags fires) + vm_compute correspondence with real jedi under controlled mtimes across processes',
+            'Theorems (8, closed): for every history of writes, deletes, renames, module<->package swaps, queries, helper restarts and process restarts, if time is strictly monotone the answers equal the specification run (= a run from empty caches), from the initial or any valid bounded state; without any timestamp assumption an answer not flagged by one of the three classifier rules (same-or-older mtime, mtime not after pickle, directory mtime unchanged) equals the specified one; three computed staleness witnesses; the module cache must be per Script (shared variant refuted). '
+            'Tied to /repo per run: generated histories driven against real jedi with os.utime-controlled mtimes, long-lived helper, new processes sharing the cache directory; every answer compared with C09_DiskCache.run in Coq (including the predicted stale answers, which are the three listed known findings).',
+            'Coq kernel + vm_compute; parso pickle format and importlib FileFinder are modelled, not verified; time granularity is explicit input.'),
+    'C12': ('Coq proof of the import-routing decision table and of the sys.path swap/restore of the helper for every request sequence and exit + per-run static enumeration (ast) of every import/exec site in /repo/jedi against the table and sentinel projects',
+            'Theorems (11, closed): with load_unsafe_extensions off every directory searched by a compiled import lies in the environment path (never a project directory); the table executes iff auto-import name or source-less module, a module with source is parsed; after load_module/get_module_info sys.path is restored for ANY effect of the call and any exit (return, ImportError, Exception, BaseException), and the import sees exactly the argument; for every request sequence the routing can produce the final sys.path is unchanged and only environment directories are searched; refutations: flag on searches the project, restore without finally leaks; the executing sites are exactly the two modelled __import__s. '
+            'Tied to /repo per run: every call of __import__/import_module/exec/eval/compile/spec loaders in /repo/jedi is enumerated with ast and must be a site of the table (new sites fail the check); sentinel projects whose modules record execution on import are queried through every API method with the flag off/on, subprocess and interpreter environments; sys.path of the helper observed before/after each request and compared with the model in Coq.',
+            'Coq kernel + vm_compute; the static enumeration is syntactic (dynamic getattr-based imports would be missed); project.json opt-in from the analysed tree is a listed open finding.'),
+    'C13': ('Coq proof on an object-graph heap model that getattr_static + is_allowed_getattr + the safe compiled filter run no user descriptor/hook under stated hypotheses (each shown necessary), safe item/iteration rule, dir coverage + vm_compute correspondence on generated live object graphs with hook counters',
+            'Theorems (14, closed): _check_class = _PyType_Lookup (no metaclass shadowing __dict__); for instances getattr_static = (a, False) and no user __getattribute__ implies getattr runs no hook and returns a; for class objects only under meta_harmless (refutation: property on the metaclass - open finding); the safe-mode filter yields only empty/annotation names for non-allowed descriptors and whatever name it hands out, inferring it runs no Python __get__; py__simple_getitem__/py__iter__list touch the live object only for the six exact builtin container types; refutations for iter()/bool() probes and the isinstance-based getitem_all_values (open findings); values() covers dir() exactly; static hits are in dir. '
+            'Tied to /repo per run: generated live object graphs (descriptors with/without __set__/__delete__, properties, slots, metaclasses, dynamic classes, builtin subclasses, instance dict shadows) with call counters on every hook: getattr_static, is_allowed_getattr, CompiledValueFilter (both modes), DirectObjectAccess item/iter/dir and Interpreter completions compared with the model in Coq; any counter hit in safe mode is a failing input.',
+            'Coq kernel + vm_compute; C-level slots of builtin types are axiomatised in the heap encoding (what the types are is read from the live objects); __annotations__ is not queried (lazily materialised by CPython).'),
+    'C16': ('Coq proof that infer/goto/get_references outputs are functions of the result set (sort key injective on well-formed names), completion order characterised (independent iff no key ties), transient engine flags restored on every exit, memo semantics + vm_compute correspondence and differential runs across PYTHONHASHSEED, heap perturbation and query permutations',
+            'Theorems (24, closed): equal sort keys imply equal names (well-formed, one state; refuted at (0,0)/None); infer output is the same list for any two enumerations of the same set under coherence, identity fields determined without it (survivor payload refuted: open finding); get_references is a sorted permutation and a function of the multiset; goto set-equal; signatures order is enumeration order (refuted: open finding); completion = stable sort of survivors, order independent iff no ties (two refutations: open findings); all transients restored for every nesting and raise point; trace replay; memo default survives an exception and memo ignores flow mode (refutations: open findings). '
+            'Tied to /repo per run: the same queries on generated and corpus programs in subprocesses under several PYTHONHASHSEEDs, allocator perturbation, reversed set iteration of the inferred value sets and permuted query order; sort keys and de-duplication captured from the real functions compared with the model in Coq; engine flags (flow analysis, is_analysis, dynamic params depth, recursion detectors) snapshotted before/after every query including raising ones.',
+            'Coq kernel + vm_compute; where a hash order could enter outside the modelled sort/dedupe sites is explored only by the differential stream (partial there).'),
 }
 
 NOT_YET = {
